@@ -124,30 +124,45 @@ func (s *Modifier) ModifyResponse(res *http.Response) error {
 	rh := res.Request.Header.Get("Range")
 	rh = strings.ToLower(rh)
 	sranges := strings.Split(strings.TrimLeft(rh, "bytes="), ",")
+	size := int(info.Size())
 	var ranges [][]int
 	for _, rng := range sranges {
-		if strings.HasSuffix(rng, "-") {
-			rng = fmt.Sprintf("%s%d", rng, info.Size()-1)
-		}
-
 		rs := strings.Split(rng, "-")
 		if len(rs) != 2 {
-			res.StatusCode = http.StatusRequestedRangeNotSatisfiable
-			return nil
+			return rangeNotSatisfiable(res, f, size)
 		}
-		start, err := strconv.Atoi(strings.TrimSpace(rs[0]))
-		if err != nil {
-			return err
-		}
+		first, last := strings.TrimSpace(rs[0]), strings.TrimSpace(rs[1])
 
-		end, err := strconv.Atoi(strings.TrimSpace(rs[1]))
-		if err != nil {
-			return err
-		}
-
-		if start > end {
-			res.StatusCode = http.StatusRequestedRangeNotSatisfiable
-			return nil
+		var start, end int
+		switch {
+		case first == "":
+			// Suffix range: the last n bytes.
+			n, err := strconv.Atoi(last)
+			if err != nil || n <= 0 || size == 0 {
+				return rangeNotSatisfiable(res, f, size)
+			}
+			if n > size {
+				n = size
+			}
+			start, end = size-n, size-1
+		default:
+			var err error
+			if start, err = strconv.Atoi(first); err != nil {
+				return rangeNotSatisfiable(res, f, size)
+			}
+			end = size - 1
+			if last != "" {
+				if end, err = strconv.Atoi(last); err != nil {
+					return rangeNotSatisfiable(res, f, size)
+				}
+			}
+			if start < 0 || start > end || start >= size {
+				return rangeNotSatisfiable(res, f, size)
+			}
+			// A last position beyond the end means "up to the final byte".
+			if end >= size {
+				end = size - 1
+			}
 		}
 
 		ranges = append(ranges, []int{start, end})
@@ -163,13 +178,13 @@ func (s *Modifier) ModifyResponse(res *http.Response) error {
 		length := end - start + 1
 		seg := make([]byte, length)
 
-		switch n, err := f.ReadAt(seg, int64(start)); err {
-		case nil, io.EOF:
-			res.ContentLength = int64(n)
-		default:
+		n, err := f.ReadAt(seg, int64(start))
+		if err != nil && err != io.EOF {
 			return err
 		}
+		seg = seg[:n]
 
+		res.ContentLength = int64(len(seg))
 		res.Body = ioutil.NopCloser(bytes.NewReader(seg))
 		res.Header.Set("Content-Range", fmt.Sprintf("bytes %d-%d/%d", start, end, info.Size()))
 
@@ -189,12 +204,11 @@ func (s *Modifier) ModifyResponse(res *http.Response) error {
 		length := end - start + 1
 		seg := make([]byte, length)
 
-		switch n, err := f.ReadAt(seg, int64(start)); err {
-		case nil, io.EOF:
-			res.ContentLength = int64(n)
-		default:
+		n, err := f.ReadAt(seg, int64(start))
+		if err != nil && err != io.EOF {
 			return err
 		}
+		seg = seg[:n]
 
 		pw, err := mpw.CreatePart(mimeh)
 		if err != nil {
@@ -210,6 +224,19 @@ func (s *Modifier) ModifyResponse(res *http.Response) error {
 	res.ContentLength = int64(len(mpbody.Bytes()))
 	res.Body = ioutil.NopCloser(bytes.NewReader(mpbody.Bytes()))
 	res.Header.Set("Content-Type", fmt.Sprintf("multipart/byteranges; boundary=%s", mpw.Boundary()))
+
+	return nil
+}
+
+// rangeNotSatisfiable turns res into a 416 with an empty body. The original body has already been
+// closed, so it must not be left in place.
+func rangeNotSatisfiable(res *http.Response, f *os.File, size int) error {
+	f.Close()
+
+	res.StatusCode = http.StatusRequestedRangeNotSatisfiable
+	res.Header.Set("Content-Range", fmt.Sprintf("bytes */%d", size))
+	res.ContentLength = 0
+	res.Body = ioutil.NopCloser(bytes.NewReader(nil))
 
 	return nil
 }
